@@ -224,10 +224,11 @@ def func_cases(rng, T, per_func_intervals=None):
         yield 'pwl_avrg_all', fl_, []
         yield 'disc_integral_all', fd, []
         yield 'disc_avrg_all', fd, []
-        yield 'pwc_call', fc + [hp], []
-        yield 'pwc_call_seq', fc + [hp], []
-        yield 'pwl_call', fl_ + [hp], []
-        yield 'pwl_call_seq', fl_ + [hp], []
+        near = [Fr(k) + sg * Fr(1, 2 ** 20) for k in range(1, T) for sg in (1, -1)] + [Fr(1, 2 ** 20), Fr(T) - Fr(1, 2 ** 20)]
+        yield 'pwc_call', fc + [hp + near], []
+        yield 'pwc_call_seq', fc + [hp + near], []
+        yield 'pwl_call', fl_ + [hp + near], []
+        yield 'pwl_call_seq', fl_ + [hp + near], []
         yield 'pwc_plot', fc, []
         yield 'pwl_plot', fl_, []
         for k in range(0, 4):
